@@ -26,4 +26,17 @@ def c07 (args : List String) : String :=
   | id :: _ => id ++ " bad-op"
   | _ => "bad-op"
 
+/-- `c07u <id> <seed>` → the first four `random::<f64>()` and the first four `random::<f32>()` of
+    `SmallRng::seed_from_u64(seed)` (bit patterns, compared exactly). -/
+def c07u (args : List String) : String :=
+  match args with
+  | [id, seed] =>
+    match seed.toNat? with
+    | some s =>
+      let ws := Xo.take 4 (seedFromU64 (BitVec.ofNat 64 s))
+      id ++ " " ++ ",".intercalate (ws.map fun w => f64ToHex (unifF64 w)) ++ " " ++ ",".intercalate (ws.map fun w => f32ToHex (unifF32 w))
+    | none => id ++ " bad-op"
+  | id :: _ => id ++ " bad-op"
+  | _ => "bad-op"
+
 end MiniMcmcVerif.Driver
